@@ -943,4 +943,5 @@ def random_marked_cut_case(rng, both_sides=False):
                 base_graph={'nodes': [[n, base.nodes[n]['fragname']] for n in base.nodes], 'edges': [[a, b, d['order']] for a, b, d in base.edges(data=True)]},
                 ctor='string', features=['cut_through_marked_single_bond', 'double_bonds_%d' % len(stereo)] + (['slash_on_both_sides'] if both_sides else []),
                 nheavy=len(g), nfrag=len(comps), frag_atoms=frag_atoms_,
-                fully_marked=[[s['a1'], s['a2']] for s in stereo if s['l1'] in lig_marked and s['l2'] in lig_marked])
+                fully_marked=[[s['a1'], s['a2']] for s in stereo if s['l1'] in lig_marked and s['l2'] in lig_marked],
+                ligands=sorted({s[k] for s in stereo for k in ('l1', 'l2')}))
